@@ -149,7 +149,15 @@ func GenConfig(prop string, g *Gen, tier string) Config {
 		// a configured KeyCompare that returns any negative/positive number, not just -1/+1
 		c.CmpScale = []int{2, 7, 1000}[g.Intn(3)]
 	}
-	if g.Intn(14) == 0 && prop != "C14" && prop != "C19" {
+	if g.Intn(50) == 0 && (prop == "C01" || prop == "C06" || prop == "C10" || prop == "C05" || prop == "C09" || prop == "C08") {
+		// one giant node: every key on layer 0 (user Key), hundreds of entries in a single node
+		c.KeyD = "userkey"
+		c.U = 700
+		c.Layers = make([]uint8, c.U)
+		c.ValD = "int"
+		c.Extra = "giant"
+	}
+	if g.Intn(14) == 0 && prop != "C14" && prop != "C19" && c.Extra != "giant" {
 		// registered types without example types: v1marshaler + JSON round-trips strings
 		c.NoLike = true
 		c.Marshaler = "json"
@@ -290,6 +298,10 @@ func GenScenario(prop string, seed uint64, tier string) *Scenario {
 		ws[i] = base[k] * f
 	}
 	nOps := g.Range(8, 70)
+	if cfg.Extra == "giant" {
+		s.emitBulk(0, g.Range(300, 500))
+		nOps = g.Range(6, 24)
+	}
 	if cfg.U >= 2000 {
 		// big-tree run: start with a bulk load
 		s.emitBulk(0, g.Range(cfg.U/4, cfg.U*3/4))
